@@ -1358,7 +1358,7 @@ def symmethod(I, o, name, args, kwargs):
             if not e.branch(z3.And(start >= 0, end >= 0), likely=True):
                 raise Undecided("bytes.find with negative bounds")
             end = z3.If(end > o.ln, o.ln, end)
-            if e.feasible(o.ln > 80):
+            if I.limits.get("find_by_specification") and e.feasible(o.ln > 80):
                 # a haystack without a small bound: bytes.find by its specification (assumed contract, A-py): the
                 # result is -1 and no position in [start, end - m] matches, or it is the first matching position
                 def hit(pz):
